@@ -34,6 +34,7 @@ type Msg struct {
 
 type Case struct {
 	Msgs      []Msg       // With(k, v, level) calls in order (same key overwrites)
+	Via       string      `json:",omitempty"` // how the redirect names its target: "" = To(path) | route = Route(name) | routeq = Route(name, Queries) | back = Back(fallback) without Referer
 	Input     [][2]string `json:",omitempty"` // WithInput(): old input fields
 	InputForm bool        `json:",omitempty"` // fields sent as form body (POST) instead of query
 	Status    int         `json:",omitempty"`
@@ -109,6 +110,14 @@ func newApp(c Case, s *seen) *fiber.App {
 		if len(c.Input) > 0 {
 			r.WithInput()
 		}
+		switch c.Via {
+		case "route":
+			return r.Route("next")
+		case "routeq":
+			return r.Route("next", fiber.RedirectConfig{Queries: map[string]string{"from": "go", "n": "1"}})
+		case "back":
+			return r.Back(c.nextPath()) // no Referer: the fallback is the target
+		}
 		return r.To(c.nextPath())
 	}
 	app.Get(c.goPath(), goH)
@@ -134,7 +143,7 @@ func newApp(c Case, s *seen) *fiber.App {
 			return r.To("/done")
 		}
 		return ctx.SendString("next")
-	})
+	}).Name("next")
 	app.Get("/done", func(ctx fiber.Ctx) error {
 		s.msgs, s.inputs = nil, nil
 		for _, m := range ctx.Redirect().Messages() {
@@ -504,7 +513,8 @@ func genStr(t *rapid.T, label string) string {
 func genCase(t *rapid.T) Case {
 	c := Case{Status: rapid.SampledFrom([]int{0, 0, 301, 303, 307}).Draw(t, "status"), Strict: rapid.IntRange(0, 9).Draw(t, "strict") == 0,
 		NextRedir: rapid.IntRange(0, 3).Draw(t, "nextredir") == 0, NextChain: rapid.Bool().Draw(t, "nextchain"),
-		GoPath: rapid.SampledFrom([]string{"", "", "/area/go", "/a/b/c/go"}).Draw(t, "gopath"), NextPath: rapid.SampledFrom([]string{"", "", "/app/next/deep", "/users/42/edit"}).Draw(t, "nextpath")}
+		GoPath: rapid.SampledFrom([]string{"", "", "/area/go", "/a/b/c/go"}).Draw(t, "gopath"), NextPath: rapid.SampledFrom([]string{"", "", "/app/next/deep", "/users/42/edit"}).Draw(t, "nextpath"),
+		Via: rapid.SampledFrom([]string{"", "", "route", "routeq", "back"}).Draw(t, "via")}
 	n := rapid.IntRange(0, 5).Draw(t, "nmsgs")
 	for i := 0; i < n; i++ {
 		m := Msg{K: genStr(t, "key"), V: genStr(t, "val")}
